@@ -109,6 +109,7 @@ func incOf(incStart []int, j int) (int, int) {
 }
 
 type c02Ctx struct {
+	all   []*consumerRec
 	c     *fw.Ctx
 	cs    c02Case
 	pub   []gen.PubMsg
@@ -343,7 +344,23 @@ func c02JudgeMsgConsumer(x *c02Ctx, rec *consumerRec, sawVideoBefore bool) {
 			if !videoSoFar {
 				cl = "held-back-without-video"
 			}
-			x.bad(kind, cl, "first live item is idx %d, expected %d (replayed GOPs=%d, video sequence header published in this incarnation before admission=%v); received %v; note=%q", firstLive, firstFwd, len(rg), videoSoFar, idxList(items, 24), rec.Note)
+			// who else has the message this joiner lacks?
+			have := ""
+			for _, o := range x.all {
+				if o == rec || o.Ts != nil || !o.Admitted {
+					continue
+				}
+				if o.JoinK == j || o.JoinK == j-1 || o.JoinK == 0 || o.JoinK == j+1 {
+					has := false
+					for _, it := range o.Items {
+						if it.Idx == firstFwd {
+							has = true
+						}
+					}
+					have += fmt.Sprintf("%s@%d has %d:%v; ", o.Kind, o.JoinK, firstFwd, has)
+				}
+			}
+			x.bad(kind, cl, "first live item is idx %d, expected %d (replayed GOPs=%d, video sequence header published in this incarnation before admission=%v); received %v; others: %s note=%q", firstLive, firstFwd, len(rg), videoSoFar, idxList(items, 24), have, rec.Note)
 			return
 		}
 	default:
@@ -796,7 +813,7 @@ func init() {
 				c.Inconclusive("%s", res.Err)
 				return
 			}
-			x := &c02Ctx{c: c, cs: cs, pub: res.Pub}
+			x := &c02Ctx{c: c, cs: cs, pub: res.Pub, all: res.Consumers}
 			for _, rec := range res.Consumers {
 				if !rec.Admitted {
 					c.Inconclusive("joiner %s@%d: %s", rec.Kind, rec.Plan.JoinAt, rec.Note)
